@@ -439,6 +439,12 @@ class Repo(object):
                 vals = [v for v in vals if not (isinstance(v, ast.Name) and v.id == expr.id)]
                 if len(vals) == 1 and vals[0] is not None and not isinstance(vals[0], (ast.FunctionDef, ast.ClassDef)):
                     return self.fold(vals[0], m, None, depth + 1)
+                if len(vals) > 1 and all(v is not None and not isinstance(v, (ast.FunctionDef, ast.ClassDef)) for v in vals):
+                    # sequential module-level re-binding:  X = '...';  X = X.replace(...)
+                    cur = self.fold(vals[0], m, None, depth + 1)
+                    for v in vals[1:]:
+                        cur = self.fold(v, m, {expr.id: cur}, depth + 1)
+                    return cur
             raise Unfoldable('name %s' % expr.id)
         if isinstance(expr, ast.BinOp):
             l, r = f(expr.left), f(expr.right)
